@@ -1,6 +1,8 @@
 //! acpisim — deterministic single-actor simulation of acpi_tables' stateful builders and of its
 //! sink/producer seams, with fault injection. See /verif/DESIGN.md.
 
+#![allow(dead_code)]
+
 mod amlgen;
 mod build;
 mod compat;
